@@ -111,6 +111,15 @@ def check(tier):
         inputs.append(("coverage", t.encode("utf-8")))
     for _ in range(30 if tier == "quick" else 400):
         inputs.append(("coverage", c12mod.gen_spec(rng).encode("utf-8")))
+    # every way a specification can be ILL-FORMED (the diagnostics are code too): each defect alone and a few combinations
+    from . import c07 as c07mod
+    base_ok = 'grammar g;\nstart = ID "x";\nID = $ID;\n'
+    for d in c07mod.DEFECTS:
+        inputs.append(("diagnostic", c07mod.seed_defects(rng, base_ok, [d]).encode("utf-8")))
+    for _ in range(10 if tier == "quick" else 200):
+        inputs.append(("diagnostic", c07mod.seed_defects(rng, base_ok, rng.sample(c07mod.DEFECTS, rng.randint(2, 4))).encode("utf-8")))
+    inputs.append(("diagnostic", b'grammar g; IF = "if"; start = "if" IF;'))
+    inputs.append(("diagnostic", b'grammar g; @left "a"; @right "a" <s = s "a" s>; @none <s = s "a" s>; s = "a";'))
     inputs.append(("edge", b'grammar g; start = "' + b"k" * 64 + b'";'))
     inputs.append(("edge", b'grammar g; start = c c; c = c "*";'))
     inputs.append(("edge", b'grammar g\n@right <start = [start]>;\n'))
